@@ -295,5 +295,5 @@ func predRotEntries0(c rotEntriesCase, o *evid.Obs) error {
 var protoProblems int
 
 func addRotEntries(r *evid.Run) {
-	evid.Add(r, evid.Prop[rotEntriesCase]{Name: "rotate-entries", Quick: 100, Thorough: 1000, Gen: genRotEntries, Pred: predRotEntries})
+	evid.Add(r, evid.Prop[rotEntriesCase]{Name: "rotate-entries", Quick: 100, Thorough: 500, Gen: genRotEntries, Pred: predRotEntries})
 }
